@@ -968,6 +968,13 @@ class WBEMConnection:  # pylint: disable=too-many-instance-attributes
             proxies=self.proxies,
         )  # init makes copies of mutable parameters
         for rec in self.operation_recorders:
+            # The new connection already has a log recorder if logging was
+            # activated for all subsequently created connections; the copy
+            # of the original one takes its place.
+            # pylint: disable=protected-access
+            cpy._operation_recorders = [
+                rec2 for rec2 in cpy._operation_recorders
+                if rec2.__class__ is not rec.__class__]
             cpy.add_operation_recorder(rec.copy())
         return cpy
 
